@@ -50,6 +50,10 @@ def cases(tier, seed):
     for nameset in ("blank", "space"):
         for via in ("disk", "virtual"):
             yield {"k": "fill", "sizes": [5], "exact": False, "fill": "default", "via": via, "nameset": nameset}
+    # names whose first character is not ASCII ($80, $E9, $A0: a tape may carry any byte in a name); the entry written must still be one
+    # live directory entry owning the granules
+    for nameset in ("hibit80", "hibitE9", "hibitA0"):
+        yield {"k": "fill", "sizes": [5], "exact": False, "fill": "default", "via": "disk", "nameset": nameset}
     # file_util --to_dsk --append onto a disk with F free granules: a batch that fits is stored; a batch of which a LATER file does
     # not fit is refused as a whole - the host image stays as it was
     for skind in ("cas", "dsk"):
@@ -144,7 +148,8 @@ def check_case(case):
             while steps < 90:
                 k = next(sizes)
                 n = (k * 2304 - 10) if case["exact"] else (k * 2304 - 10 - 7)
-                fname = "F{}".format(steps) if "nameset" not in case else "" if case["nameset"] == "blank" else " F{}".format(steps)
+                fname = "F{}".format(steps) if "nameset" not in case else "" if case["nameset"] == "blank" else \
+                    "{}F{}".format(chr(int(case["nameset"][5:], 16)), steps) if case["nameset"].startswith("hibit") else " F{}".format(steps)
                 s = c07.fspec("ML", n, fname, case.get("ext", "BIN"))
                 if "kind" in case:      # stream length = k granules + delta bytes
                     s = c07.fspec(case["kind"], k * 2304 - c07.HDR[case["kind"]] + case["delta"], "F{}".format(steps), "DAT")
